@@ -562,7 +562,7 @@ func writeEvidence(prop, tier string, seed uint64, t *workerResult, distinct int
 		"level":       "exploration",
 		"coverage":    cov,
 		"assumptions": []string{
-			"stubs stand in for the real HTTP/gRPC client libraries",
+			"stubs stand in for the real HTTP/gRPC client libraries" + map[bool]string{true: " (except scenario relay-address-history: the real go-builder-client talks to relay stubs over a loopback socket that is used as a synchronous call, DESIGN.md 0.2)", false: ""}[prop == "C09"],
 			"exploration: seeded sampling of schedules and faults, not exhaustive",
 			"go1.26.8 testing/synctest fake clock; go-deadlock's own detector disabled (modelled locks detect lock misuse)",
 		},
